@@ -1,6 +1,7 @@
 import FsnVerif.Proofs.KqLemmas
 import FsnVerif.Proofs.KqFullInv
 import FsnVerif.Proofs.KqFullFrame
+import FsnVerif.Proofs.KqFullRemove
 /-!
 # C17 — kqueue: watch descriptors are always closed again; only user paths are listed (model side)
 
@@ -200,6 +201,20 @@ theorem full_remove_releases {s : KS} (h : Reachable s) (hc : s.closed = false) 
   obtain ⟨e', he'⟩ := (alHas_iff _ _).mp this
   exact (h2 _ _ he').1 rfl
 
+/-- **`Remove` of a watched directory releases the watches of its entries** ("through removal of the
+containing directory's watch"): afterwards the only watches left directly inside it are ones the user
+added himself (and `full_remove_releases` says the directory's own descriptor is closed; every watch
+that goes closes its descriptor by `full_fds_are_table`) -/
+theorem full_remove_dir_releases_entries {s : KS} (h : Reachable s) (hc : s.closed = false) (name : Path) (info : KqF.KW)
+    (hi : alLookup ((alLookup (clean name) s.path).getD 0) s.wd = some info) (hd : info.isDir = true) (tape : List Ans) :
+    ∀ k e, alLookup k (run (.remove name) { s := s, tape := tape }).s.wd = some e → dir e.name = clean name → e.name ∈ s.byUser := by
+  have hinv := reachable_inv h
+  have e : run (.remove name) { s := s, tape := tape } = (rm (4 + 2) name true { s := s, tape := tape }).2 := by
+    simp only [run, KqF.remove, bind_apply, KqF.get, hc]
+    rfl
+  rw [e]
+  exact remove_dir_releases_entries 4 name { s := s, tape := tape } hinv hc info hi hd
+
 /-- the clean spellings of everything the user ever asked to add -/
 def asked : List Op → List Path
   | [] => []
@@ -228,7 +243,7 @@ theorem full_watchlist_only_user_paths {ops : List Op} {s : KS} (h : ReachH ops 
         · rw [h1]; exact List.mem_cons_self
       | remove q => exact ih p (rel_remove frame_noNewUser q true { s := s, tape := tape } p hp)
       | events => exact ih p (rel_reader frame_noNewUser noNewUser_sendEvent noNewUser_sendError 64 { s := s, tape := tape } p hp)
-      | close => exact ih p (rel_close frame_noNewUser { s := s, tape := tape } p hp)
+      | close => exact ih p (rel_close frame_noNewUser (fun _ _ h => h) { s := s, tape := tape } p hp)
   intro p hp
   apply key
   simp only [watchList, KqF.get, bind_apply, pure_apply] at hp
@@ -242,7 +257,7 @@ theorem full_api_calls_silent (w : W) :
     (∀ p, (run (.add p) w).events = w.events ∧ (run (.add p) w).errors = w.errors) ∧
     (∀ p, (run (.remove p) w).events = w.events ∧ (run (.remove p) w).errors = w.errors) ∧
     ((run .close w).events = w.events ∧ (run .close w).errors = w.errors) :=
-  ⟨fun p => add_silent p w, fun p => rel_remove frame_silent p true w, rel_close frame_silent w⟩
+  ⟨fun p => add_silent p w, fun p => rel_remove frame_silent p true w, rel_close frame_silent (fun _ => ⟨rfl, rfl⟩) w⟩
 
 /-- non-vacuity: a directory with one file is added (two descriptors), then the Watcher is closed -/
 def tapeAdd : List Ans :=
